@@ -235,6 +235,10 @@ B('new-public-api-method', 'src/channel.rs', "    pub fn recover(&self, requeue:
 B('helper-in-handle', HDL, "        let buf = self.make_buf(method);\n        self.send(IoLoopMessage::Send(buf))\n    }", "        let msg = self.frame_message(method);\n        self.send(msg)\n    }\n\n    fn frame_message<M: IntoAmqpClass>(&mut self, method: M) -> IoLoopMessage {\n        let buf = self.make_buf(method);\n        IoLoopMessage::Send(buf)\n    }", ['C01', 'C04', 'C12', 'C13'])
 
 
+# a smaller (still positive) read quantum once the frame size is known: same frames, more reads -- R06.9 only objects to room derived from the buffer's storage state
+B('reserve-capped-by-frame-size', FB, 'reserve = usize::max(MIN_READ, frame_size);', 'reserve = usize::min(MIN_READ, frame_size);', ['C06', 'C03', 'C05', 'C07'])
+
+
 def BP(name, patch, properties):
     """behaviour-preserving edit given as a patch file under selftest/patches/"""
     import os
